@@ -393,8 +393,14 @@ func WiringRows(fn *ssa.Function, want func(callee string) bool) []string {
 var wiringScope = []string{"converters", "converters/ingress", "converters/gateway", "converters/utils", "converters/configmap", "converters/ingress/annotations", "haproxy", "haproxy/types", "haproxy/socket", "haproxy/template", "acme", "utils/workqueue", "controller/services", "controller/legacy", "controller/reconciler", "common/net/ssl", "utils", "controller/config", "controller/utils", "converters/ingress/utils", "common/ingress/controller"}
 
 // WiringAll renders the table of the current tree (used by `hapverif genwiring`).
+var wiringCache = map[*core.Env]map[string][]string{}
+
 func WiringAll(env *core.Env) map[string][]string {
+	if m, ok := wiringCache[env]; ok {
+		return m
+	}
 	out := map[string][]string{}
+	defer func() { wiringCache[env] = out }()
 	for _, fn := range env.SrcFuncs() {
 		in := false
 		for _, p := range wiringScope {
